@@ -17,7 +17,7 @@ pub fn scan(
     let mut check = vec![0; loaded.len()];
     let mut hasher = Sha1::new();
 
-    let found = scan_internal(0, &mut check, &loaded, &mut hasher, piece);
+    let found = scan_internal(&mut check, &loaded, &mut hasher, piece);
 
     if found { 
         let output_buffer = &mut result.bytes;
@@ -39,35 +39,45 @@ pub fn scan(
 }
 
 fn scan_internal(
-    depth: usize,
     check: &mut [usize],
     finder: &Cache,
     hasher: &mut CoreWrapper<Sha1Core>,
     piece: &OrchestrationPiece
 ) -> bool {
-    let entries = &finder[depth];
-
-    for entry_index in 0..entries.len() {
-        check[depth] = entry_index;
-
-        let valid = if depth + 1 == piece.files.len() {
-            for (depth, index) in check.iter().enumerate() {
-                let index = *index;
-                let value = &finder[depth][index].1;
-                hasher.update(value);
-            }
-            
-            piece.hash.as_slice().cmp(&hasher.finalize_reset()).is_eq()
-        } else {
-            scan_internal(depth + 1, check, finder, hasher, piece)
-        };
-
-        if valid {
-            return valid;
-        }
+    // Every combination of one candidate per file, the first file varying slowest. The walk is a loop, not a
+    // recursion per file: the number of files in a piece is only bounded by the torrent, and tens of thousands
+    // of (empty or tiny) files in one piece would exhaust a worker's stack.
+    if finder.iter().any(|entries| entries.is_empty()) {
+        return false;
     }
 
-    false
+    loop {
+        for (depth, index) in check.iter().enumerate() {
+            hasher.update(&finder[depth][*index].1);
+        }
+
+        if piece.hash.as_slice().cmp(&hasher.finalize_reset()).is_eq() {
+            return true;
+        }
+
+        // Advance to the next combination, the last file first.
+        let mut depth = check.len();
+
+        loop {
+            if depth == 0 {
+                return false;
+            }
+
+            depth -= 1;
+            check[depth] += 1;
+
+            if check[depth] < finder[depth].len() {
+                break;
+            }
+
+            check[depth] = 0;
+        }
+    }
 }
 
 fn preload(piece: &OrchestrationPiece) -> std::io::Result<Cache> {
